@@ -17,17 +17,140 @@ var debugTrace = os.Getenv("GOSMT_TRACE") != ""
 type State struct {
 	base   *Term // path condition of the callers (absolute)
 	pc     *Term // path condition relative to the current function entry
-	heap   map[*Object]Value
+	heap   *Heap
 	regs   map[ssa.Value]Value
 	retval Value
 }
 
 func (st *State) abs() *Term { return And(st.base, st.pc) }
 
+// Heap: layered copy-on-write map from objects to values. A fork freezes the current top layer and gives each
+// side a fresh layer above it; a merge only has to look at the layers written since the common ancestor.
+type Heap struct {
+	parent *Heap
+	m      map[*Object]Value
+	depth  int
+}
+
+func newHeap() *Heap { return &Heap{m: map[*Object]Value{}} }
+
+func (h *Heap) get(o *Object) (Value, bool) {
+	for x := h; x != nil; x = x.parent {
+		if v, ok := x.m[o]; ok {
+			return v, true
+		}
+	}
+	return nil, false
+}
+
+func (h *Heap) set(o *Object, v Value) { h.m[o] = v }
+
+func (h *Heap) child() *Heap {
+	if h.depth >= 24 {
+		h = h.flatten()
+	}
+	return &Heap{parent: h, m: map[*Object]Value{}, depth: h.depth + 1}
+}
+
+func (h *Heap) flatten() *Heap {
+	f := &Heap{m: map[*Object]Value{}}
+	var chain []*Heap
+	for x := h; x != nil; x = x.parent {
+		chain = append(chain, x)
+	}
+	for i := len(chain) - 1; i >= 0; i-- {
+		for k, v := range chain[i].m {
+			f.m[k] = v
+		}
+	}
+	return f
+}
+
+func (h *Heap) keys() []*Object {
+	seen := map[*Object]bool{}
+	var out []*Object
+	for x := h; x != nil; x = x.parent {
+		for k := range x.m {
+			if !seen[k] {
+				seen[k] = true
+				out = append(out, k)
+			}
+		}
+	}
+	return out
+}
+
+// writesSince collects the newest value of every object written in the layers of h above anc (anc == nil: all layers)
+func (h *Heap) writesSince(anc *Heap) map[*Object]Value {
+	w := map[*Object]Value{}
+	for x := h; x != nil && x != anc; x = x.parent {
+		for k, v := range x.m {
+			if _, ok := w[k]; !ok {
+				w[k] = v
+			}
+		}
+	}
+	return w
+}
+
+func commonAncestor(a, b *Heap) *Heap {
+	seen := map[*Heap]bool{}
+	for x := a; x != nil; x = x.parent {
+		seen[x] = true
+	}
+	for y := b; y != nil; y = y.parent {
+		if seen[y] {
+			return y
+		}
+	}
+	return nil
+}
+
+func mergeHeaps(c *Term, a, b *Heap) *Heap {
+	anc := commonAncestor(a, b)
+	wa, wb := a.writesSince(anc), b.writesSince(anc)
+	var r *Heap
+	if anc != nil {
+		r = anc.child()
+	} else {
+		r = newHeap()
+	}
+	lookup := func(w map[*Object]Value, k *Object) (Value, bool) {
+		if v, ok := w[k]; ok {
+			return v, true
+		}
+		if anc != nil {
+			return anc.get(k)
+		}
+		return nil, false
+	}
+	for k, va := range wa {
+		if vb, ok := lookup(wb, k); ok {
+			r.m[k] = mergeValue(c, va, vb)
+		} else {
+			r.m[k] = va
+		}
+	}
+	for k, vb := range wb {
+		if _, done := wa[k]; done {
+			continue
+		}
+		if va, ok := lookup(wa, k); ok {
+			r.m[k] = mergeValue(c, va, vb)
+		} else {
+			r.m[k] = vb
+		}
+	}
+	return r
+}
+
 func (st *State) fork() *State {
-	n := &State{base: st.base, pc: st.pc, heap: make(map[*Object]Value, len(st.heap)+8), regs: make(map[ssa.Value]Value, len(st.regs)+8)}
-	for k, v := range st.heap {
-		n.heap[k] = v
+	base := st.heap
+	st.heap = base.child()
+	n := &State{base: st.base, pc: st.pc, heap: base.child(), regs: make(map[ssa.Value]Value, len(st.regs)+8)}
+	if st.heap.parent != n.heap.parent {
+		// base was flattened by one child() call: make both sides share the same frozen layer
+		n.heap = st.heap.parent.child()
 	}
 	for k, v := range st.regs {
 		n.regs[k] = v
@@ -94,7 +217,7 @@ func newInterp(prog *ssa.Program) *Interp {
 func (in *Interp) newObject(st *State, v Value, label string) *Object {
 	in.nextObj++
 	o := &Object{id: in.nextObj, label: label}
-	st.heap[o] = v
+	st.heap.set(o, v)
 	return o
 }
 
@@ -252,19 +375,7 @@ func (in *Interp) mergeStates(c *Term, a, b *State) *State {
 		return a
 	}
 	in.stats.merges++
-	r := &State{base: a.base, pc: Or(a.pc, b.pc), heap: make(map[*Object]Value, len(a.heap)), regs: make(map[ssa.Value]Value, len(a.regs))}
-	for k, va := range a.heap {
-		if vb, ok := b.heap[k]; ok {
-			r.heap[k] = mergeValue(c, va, vb)
-		} else {
-			r.heap[k] = va
-		}
-	}
-	for k, vb := range b.heap {
-		if _, ok := a.heap[k]; !ok {
-			r.heap[k] = vb
-		}
-	}
+	r := &State{base: a.base, pc: Or(a.pc, b.pc), heap: mergeHeaps(c, a.heap, b.heap), regs: make(map[ssa.Value]Value, len(a.regs))}
 	for k, va := range a.regs {
 		if vb, ok := b.regs[k]; ok {
 			r.regs[k] = mergeValue(c, va, vb)
@@ -629,8 +740,8 @@ func (fr *Frame) eval(st *State, v ssa.Value) Value {
 
 func (in *Interp) globalObj(st *State, g *ssa.Global) *Object {
 	if o, ok := in.globals[g]; ok {
-		if _, ok := st.heap[o]; !ok {
-			st.heap[o] = in.globalHeap[o]
+		if _, ok := st.heap.get(o); !ok {
+			st.heap.set(o, in.globalHeap[o])
 		}
 		return o
 	}
@@ -639,7 +750,7 @@ func (in *Interp) globalObj(st *State, g *ssa.Global) *Object {
 	in.globals[g] = o
 	z := zeroValue(g.Type().(*types.Pointer).Elem())
 	in.globalHeap[o] = z
-	st.heap[o] = z
+	st.heap.set(o, z)
 	return o
 }
 
@@ -723,10 +834,10 @@ func (fr *Frame) load(st *State, pv Value, instr ssa.Instruction) Value {
 		if p.obj == nil {
 			return nil, false
 		}
-		hv, ok := st.heap[p.obj]
+		hv, ok := st.heap.get(p.obj)
 		if !ok {
 			if gv, ok2 := in.globalHeap[p.obj]; ok2 {
-				st.heap[p.obj] = gv
+				st.heap.set(p.obj, gv)
 				hv = gv
 			} else {
 				unsupported("load from unknown object %s at %s", p.obj.label, in.posOf(instr))
@@ -780,7 +891,7 @@ func (fr *Frame) store(st *State, pv Value, v Value, instr ssa.Instruction) {
 			in.drops++
 			return
 		}
-		hv, ok := st.heap[p.obj]
+		hv, ok := st.heap.get(p.obj)
 		if !ok {
 			if gv, ok2 := in.globalHeap[p.obj]; ok2 {
 				hv = gv
@@ -795,7 +906,7 @@ func (fr *Frame) store(st *State, pv Value, v Value, instr ssa.Instruction) {
 		if g != tTrue {
 			nv = mergeValue(g, v, loadPath(hv, p.idx))
 		}
-		st.heap[p.obj] = storePath(hv, p.idx, nv)
+		st.heap.set(p.obj, storePath(hv, p.idx, nv))
 	}
 	switch p := pv.(type) {
 	case Pointer:
@@ -1766,6 +1877,24 @@ func (in *Interp) callFunction(st *State, fn *ssa.Function, args []Value, bindin
 	if in.contracts[name] {
 		if spec := in.contractFn(fn); spec != nil {
 			fn = spec
+			// a contract is stated for one concrete receiver/argument shape: distribute over multi-valued arguments
+			for i, a := range args {
+				if iv, ok := a.(IfaceVal); ok {
+					if ich, ok2 := iv.v.(*Choice); ok2 {
+						var alts []Alt
+						for _, x := range ich.alts {
+							alts = append(alts, Alt{x.g, IfaceVal{typ: iv.typ, v: x.v}})
+						}
+						a = &Choice{alts: alts}
+					}
+				}
+				if ch, ok := a.(*Choice); ok {
+					if _, isInt := ch.alts[0].v.(int64); isInt {
+						continue
+					}
+					return in.callSplitArg(st, fn, args, bindings, instr, i, ch)
+				}
+			}
 		}
 	}
 	if fn.Blocks == nil {
@@ -1826,6 +1955,44 @@ func (in *Interp) callFunction(st *State, fn *ssa.Function, args []Value, bindin
 		if st.pc == tFalse {
 			return nil, false
 		}
+	}
+	return rv, true
+}
+
+// callSplitArg runs fn once per alternative of args[i] and merges the resulting states
+func (in *Interp) callSplitArg(st *State, fn *ssa.Function, args []Value, bindings []Value, instr ssa.Instruction, i int, ch *Choice) (Value, bool) {
+	var merged *State
+	in.symDepth++
+	defer func() { in.symDepth-- }()
+	for k := len(ch.alts) - 1; k >= 0; k-- {
+		a := ch.alts[k]
+		s := st.fork()
+		s.pc = And(st.pc, a.g)
+		if s.pc == tFalse {
+			continue
+		}
+		nargs := append([]Value{}, args...)
+		nargs[i] = a.v
+		r, alive := in.callFunction(s, fn, nargs, bindings, instr)
+		if !alive {
+			continue
+		}
+		s.retval = r
+		if r == nil {
+			s.retval = Tuple{}
+		}
+		merged = in.mergeStates(a.g, s, merged)
+	}
+	if merged == nil {
+		st.pc = tFalse
+		return nil, false
+	}
+	st.pc = merged.pc
+	st.heap = merged.heap
+	st.regs = merged.regs
+	rv := merged.retval
+	if tu, ok := rv.(Tuple); ok && len(tu) == 0 {
+		rv = nil
 	}
 	return rv, true
 }
